@@ -294,7 +294,7 @@ def _designed_case(repo, it, S, spec):
     out = []
     n = 0
     q = repo.fn(f"{CDS}.translate")
-    tt = it.enum("TranslationTable")[table]
+    tt = it.enum("TranslationTable")[table] if table is not None else None
     # single exon, and the same CDS split inside the second copy of the first codon
     for lay, frames in ((exons, [0]), ([(a, a + 7), (a + 7, a + len(coding))], None)):
         if frames is None:
@@ -306,31 +306,39 @@ def _designed_case(repo, it, S, spec):
             n += 1
             try:
                 cds = mk_cds(it, lay, S[sn], frames, par)
-                k, v = run(it, q, [], {"translation_table": tt, "truncate_at_in_frame_stop": trunc}, cds)
+                kw = {"truncate_at_in_frame_stop": trunc}
+                if tt is not None:
+                    kw["translation_table"] = tt
+                k, v = run(it, q, [], kw, cds)
             except Raised as ex:
                 k, v = "raise", ex.exc_name
-            wp = translate_ref(coding, table)
+            wp = translate_ref(coding, table or "DEFAULT")
             got = v.fields.get("sequence") if k == "ok" and isinstance(v, Obj) else v
             if k != "ok" or got != wp:
-                out.append((f"translate {table} repeated initiator", f"coding sequence {coding} ({sn} strand, exons {lay}) translate(table={table}, "
+                out.append((f"translate {table or 'no table argument'} start rule", f"coding sequence {coding} ({sn} strand, exons {lay}) translate(table={table}, "
                             f"truncate_at_in_frame_stop={trunc}) -> {k}:{got}; start rule on codon 0 only gives {wp!r}", q.qual))
     return n, out
 
 
-def rt_designed_translation(ctx):
+def rt_designed_translation(ctx, rule="C05.RT"):
     specs = []
+    every = sorted(set().union(*NCBI_STARTS.values()))
     for table, starts in sorted(NCBI_STARTS.items()):
         ss = sorted(starts)
-        for i, first in enumerate(ss):
+        # first codon: every initiator of ANY table (it reads as M only under a table that lists it)
+        for i, first in enumerate(every):
             other = ss[(i + 1) % len(ss)]
             for sn in ("PLUS", "MINUS"):
                 specs.append((table, first, other, sn))
         # a first codon that is not an initiator is read through the standard code, initiators later on as well
         specs.append((table, "AAG", ss[0], "PLUS"))
-    ctx.r.floor("C05.RT", "designed coding sequences", len(specs), 20)
+    # no table argument = the ATG-only default
+    for first in every:
+        specs.append((None, first, "ATG", "PLUS"))
+    ctx.r.floor(rule, "designed coding sequences", len(specs), 40)
     results = pmap(_runner(ctx.repo, _designed_case), specs, min_items=4)
-    _report(ctx, "C05.RT", results, [(f"{CDS}.translate", "start rule on codon 0 only, for every initiator of every table, both strands, "
-                                      "one- and two-exon layouts")])
+    _report(ctx, rule, results, [(f"{CDS}.translate", "start rule on codon 0 only, for every initiator under every table (and with the table "
+                                  "argument omitted), both strands, one- and two-exon layouts")])
 
 
 def rc_chunk_frames(ctx):
